@@ -1,6 +1,7 @@
 package commitlog
 
 import (
+	"fmt"
 	"strings"
 	"time"
 )
@@ -50,9 +51,14 @@ func VerifC09Retention() {
 	var prevTs int64
 	for i := 0; i < n; i++ {
 		v := vNondetBytes("val", 1+vChoose(2)*3)
+		// message timestamps are arbitrary positive values: a segment's last
+		// write time need not grow from segment to segment (leader changes
+		// between brokers with skewed clocks)
 		ts := vNondetInt64("ts")
 		vAssume(ts > 0)
-		vAssume(ts >= prevTs)
+		if vParam("monotonic", 0) == 1 {
+			vAssume(ts >= prevTs)
+		}
 		prevTs = ts
 		_, err := l.Append([]*Message{{Value: v, Timestamp: ts, MagicByte: 2}})
 		vAssert(err == nil, "Append succeeds")
@@ -128,6 +134,9 @@ func VerifC09Retention() {
 		byt += after[i].bytes
 	}
 	if len(kept) > 1 {
+		if limAge > 0 && kept[0].lwt < ttl {
+			vNote(fmt.Sprintf("before=%+v after=%+v dropped=%d ttl=%d", before, after, dropped, ttl))
+		}
 		if limAge > 0 {
 			vAssert(kept[0].lwt >= ttl, "age limit holds on the oldest kept segment")
 		}
